@@ -652,6 +652,17 @@ func fieldName(t types.Type, i int) string {
 }
 
 func (w *origWalker) call(c *ssa.Call, idx int, v ssa.Value) {
+	if b, ok := c.Call.Value.(*ssa.Builtin); ok {
+		switch b.Name() {
+		case "append", "min", "max":
+			for _, a := range c.Call.Args {
+				w.walk(a)
+			}
+			return
+		}
+		w.root(Root{Kind: "call", Val: v, Desc: "builtin." + b.Name(), Call: c, Idx: idx})
+		return
+	}
 	n := calleeName(c)
 	if w.o != nil && w.o.stop[n] {
 		w.root(Root{Kind: "call", Val: v, Desc: n, Call: c, Idx: idx})
@@ -781,6 +792,7 @@ func (w *origWalker) load(addr ssa.Value, v ssa.Value) {
 		if al, ok := base.(*ssa.Alloc); ok {
 			// local struct: stores to the same field of the same cell
 			found := false
+			w.root(Root{Kind: "field", Val: v, Desc: fname})
 			for _, r := range *al.Referrers() {
 				if fa, ok := r.(*ssa.FieldAddr); ok && fa.Field == a.Field {
 					for _, st := range storesTo(fa) {
@@ -1045,6 +1057,25 @@ func condEdgesOf(f *ssa.Function) []condEdge {
 		out = append(out, ce)
 	}
 	return out
+}
+
+func (ce condEdge) pos() token.Pos {
+	if ce.cond != nil && ce.cond.Pos().IsValid() {
+		return ce.cond.Pos()
+	}
+	if ce.binop != nil {
+		for _, v := range []ssa.Value{ce.binop.X, ce.binop.Y} {
+			if v.Pos().IsValid() {
+				return v.Pos()
+			}
+		}
+	}
+	for _, in := range ce.ifi.Block().Instrs {
+		if in.Pos().IsValid() {
+			return in.Pos()
+		}
+	}
+	return token.NoPos
 }
 
 // returnsOf lists Return instructions of f.
